@@ -33,10 +33,20 @@ def reader_oracle(fn):
             return None
         case = parse_case(c)
         toks, log = split_obs(canon(o))
-        return fn(case, toks, log, parse_spec(case['fmt'], canon(s)))
+        rejected = s.endswith(run.A_REJECTS)
+        if rejected:
+            s = s[:-len(run.A_REJECTS)]
+        v = fn(case, toks, log, parse_spec(case['fmt'], canon(s)))
+        if rejected and LEAN_A_ORACLE and v is not None and not v.failures:
+            # the abstract reader of Model/History*.lean – the object the history theorems are about – does not allow
+            # what the implementation did (a record lost, duplicated, reordered or changed, a wrong position, a wrong
+            # batch size, a wrong error), although the property's own Python oracle saw nothing
+            v.failures.append('the Lean abstract reader rejects the implementation\'s history (runA / acceptsA = false)')
+        return v
     return f
 
 
+LEAN_A_ORACLE = False   # set per property by the check script: C01 C02 C04 C05 C17
 EXACT_KINDS = None  # case kinds that have a model observation to compare with (None = all)
 KEEP_MSG = False   # only C17 compares the wording of error messages
 FIELDS = None      # record fields compared (None = all); set per property by the check script
@@ -87,6 +97,10 @@ def reconcile(o, m):
         mt[i] = t[:mm.start()] + sfx(mm, mm)
         ot[i] = ot[i][:mo.start()] + sfx(mo, mm)
     return ';'.join(ot) + (' L=' + ol if ' L=' in o else ''), ';'.join(mt) + (' L=' + ml if ' L=' in m else '')
+
+
+_ALLOC_DET = __import__('re').compile(r'@\d+')
+_CAP_DET = __import__('re').compile(r'\^\d+')
 
 
 def differ(o, m, keep_growth):
@@ -158,7 +172,7 @@ def _run_cases(res, fam, cases, oracle_fn, keep_growth, exact, post=None):
         res.harness_crash = bad
         res.oracle_failures.append((bad, 'the harness process died or hung on this case (abort / endless loop outside a source or policy call)', ''))
         return
-    model, spec = run.run_model(cases)
+    model, spec = run.run_model(cases, impl)
     n = len(cases)
     _JOB = (cases, impl, model, spec, oracle_fn, keep_growth, exact)
     if n >= 40000:
@@ -193,6 +207,13 @@ def _run_cases(res, fam, cases, oracle_fn, keep_growth, exact, post=None):
         res.samples.append({'family': fam, 'case': cases[len(cases) // 2][:400], 'impl': impl[len(cases) // 2][:400]})
     res.families[fam] = res.families.get(fam, 0) + len(cases)
     res.notes.append('%s: %d cases in %.1fs' % (fam, len(cases), time.time() - t))
+    if cases and cases[0].startswith('A '):
+        # how many measured calls the ghost-capacity model determines (allocation count / buffer capacity compared exactly)
+        det = sum(len(_ALLOC_DET.findall(m)) for m in model)
+        und = sum(m.count('@?') for m in model)
+        capd = sum(len(_CAP_DET.findall(m)) for m in model)
+        res.notes.append('%s: allocation counts compared exactly for %d calls, left open by the model for %d (errors, policy growth, '
+                         'owned records, dumps); buf_capacity() compared exactly after %d set operations' % (fam, det, und, capd))
 
 
 # ---------------------------------------------------------------- shrinking
